@@ -10,7 +10,7 @@ from . import lincommon as lc
 from .c16 import panel_nodes
 
 PROP = "C17"
-MONITORS = ("WF",)
+MONITORS = ("WF", "FORM")
 HOSTILE = ('special',)
 ANCHORS = [("approximate_conditional.py", "HeteroscedasticConditional.get_conditional_cov"),
            ("approximate_conditional.py", "HeteroscedasticConditional.condition_on_x"),
